@@ -128,4 +128,3 @@ func cmdFn(args []string) {
 	}
 }
 
-func cmdCheck(args []string) {}
